@@ -123,7 +123,7 @@ namespace cs
                     break;
                 case 3:
                     if (r.chance(1, 2))
-                        p.add("mkx", {(long long)r.below(8), (long long)r.below(17), (long long)r.below(20)});
+                        p.add("mkx", {(long long)r.below(10), (long long)r.below(17), (long long)r.below(20)});
                     else
                     p.add("dl", {(long long)r.below(3), (long long)r.below(4), (long long)r.below(9)});
                     break;
